@@ -3,12 +3,14 @@ EXTENDS DurationParse, Json
 FullAlphabet == {"1", "2", "+", "-", "n", "s", "u", "m", "h", "d", "w", "o", "y", "x", ".", " ", "E", "B", "M"}
 \* grammar-directed alphabet: longer strings that are mostly well formed
 TermAlphabet == {"1", "2", "-", "s", "m", "h", "d", "o", "y", "n"}
+\* sub-second terms that reach whole seconds
+SubsecAlphabet == {"T", "2", "-", "m", "s", "u", "n"}
 EmitDur ==
-    st \in {"ok", "err"} =>
+    st \in {"ok", "err", "beyond"} =>
       PrintT(<<"REPLAY", ToJson([op |-> "dur", s |-> s, outcome |-> st, wf |-> WellFormed(s),
                                  meaning |-> IF WellFormed(s) THEN Meaning(s) ELSE <<0, 0, 0>>])>>)
 \* the grammar-directed run emits the well-formed strings only
 EmitWF ==
-    (st \in {"ok", "err"} /\ WellFormed(s)) =>
+    (st \in {"ok", "err", "beyond"} /\ WellFormed(s)) =>
       PrintT(<<"REPLAY", ToJson([op |-> "dur", s |-> s, outcome |-> st, wf |-> TRUE, meaning |-> Meaning(s)])>>)
 =============================================================================
